@@ -1,7 +1,7 @@
 (* Dispatcher: one entry point for every executable model function. *)
 From Coq Require Import List ZArith Arith Bool.
 From MsmV Require Import Lib.Result Lib.PyList Lib.Sorting Run.Wire.
-From MsmV Require Import Lib.QMat Model.Labels Model.StateTraj Model.Msm Proofs.MsmFacts Model.Coring Proofs.CoringFacts Proofs.CoringWrap.
+From MsmV Require Import Lib.QMat Model.Labels Model.StateTraj Model.Msm Proofs.MsmFacts Model.Coring Proofs.CoringFacts Proofs.CoringWrap Model.Events Model.Similarity Spec.Wrappers.
 Import ListNotations.
 Local Open Scope Z_scope.
 
@@ -64,6 +64,27 @@ Definition run_coring (e : Z) (a : list Z) : option (list Z) :=
     | None => None end
   else None.
 
+Definition edict (d : list (list Z * list Z)) : list Z :=
+  elist (fun kv => eZs (fst kv) ++ eZs (snd kv)) d.
+
+Definition run_events (e : Z) (a : list Z) : option (list Z) :=
+  if e =? 601 then
+    match dpair dnested (dpair (dlist dZ) (dlist dZ)) a with
+    | Some ((ts, (st, fi)), _) =>
+        Some (eres eZs (estimate_waiting_times ts st fi) ++ eres eZs (wt_ref ts st fi))
+    | None => None end
+  else if e =? 602 then
+    match dpair dnested (dpair (dlist dZ) (dlist dZ)) a with
+    | Some ((ts, (st, fi)), _) =>
+        Some (eres edict (estimate_paths ts st fi) ++ eres edict (paths_ref ts st fi))
+    | None => None end
+  else if e =? 1301 then
+    match dpair dnested (dpair dnested dZ) a with
+    | Some ((t1, (t2, m)), _) =>
+        Some (eres eQ (compare_discretization t1 t2 m) ++ eres eQ (sim_ref t1 t2 m))
+    | None => None end
+  else None.
+
 Definition run (req : list Z) : list Z :=
   match req with
   | [] => malformed
@@ -76,6 +97,9 @@ Definition run (req : list Z) : list Z :=
       | None =>
       match run_coring e a with
       | Some r => r
+      | None =>
+      match run_events e a with
+      | Some r => r
       | None => malformed
-      end end end
+      end end end end
   end.
